@@ -65,6 +65,11 @@ impl<T> CompactArena<T> {
         } else {
             // Allocate new slot
             let index = self.storage.len();
+            // NULL_NODE is reserved as the null handle and must never be issued
+            assert!(
+                index < NULL_NODE as usize,
+                "CompactArena is full: NodeId space exhausted"
+            );
             self.storage.push(item);
             self.allocated_mask.push(true);
             index
